@@ -4,12 +4,11 @@ package c10
 import (
 	"fmt"
 	"go/ast"
-	"go/token"
 	"math"
-	"strings"
 
 	"rscheck/cfgq"
 	"rscheck/core"
+	"rscheck/lin"
 	"rscheck/pat"
 	"rscheck/rules/c10/flow"
 )
@@ -177,6 +176,7 @@ func (r *rs) r4() {
 	// bulk body
 	if fn := r.method("Decoder", "decodeBulkBytes"); fn != nil {
 		g := cfgq.Of(c.Program, fn)
+		r.cur = fn.Decl.Body
 		_, b := pat.Stmt("_n, _err = _d.decodeInt()").Find(info, fn.Decl.Body, nil)
 		var mk ast.Node
 		if b != nil {
@@ -210,15 +210,15 @@ func (r *rs) r4() {
 						continue
 					}
 					k++
+					buf := r.bufferOf(fn.Decl.Body, bobj, mk.(*ast.AssignStmt).Rhs[0].(*ast.CallExpr).Args[1])
+					opq := flow.Opaque(g, buf.understood, bobj)
 					for _, t := range []struct {
-						pat  string
+						off  int64
 						ch   int64
 						name string
-					}{{"_b[_n]", '\r', "cr"}, {"_b[_n + 1]", '\n', "lf"}} {
-						isX := func(e ast.Expr) bool { return pat.Expr(t.pat).Match(info, e, b) != nil }
-						ok, w := flow.OnlyVia(g, p, func(f cfgq.Fact) bool { return flow.CmpIs(info, f, isX, token.EQL, t.ch) })
-						c.Check("R4.term", "decodeBulkBytes/"+t.name, ret.Pos(), ok,
-							fmt.Sprintf("after the body was read a value may be returned only when byte %s was found to be %q: a bulk not followed by CR LF is malformed and must yield an error", strings.ReplaceAll(t.pat, "_", ""), rune(t.ch)), w...)
+					}{{-2, '\r', "cr"}, {-1, '\n', "lf"}} {
+						r.guard("R4.term", "decodeBulkBytes/"+t.name, ret.Pos(), g, p, buf.establishes(shift(buf.length, t.off), t.ch), opq,
+							fmt.Sprintf("after the body was read a value may be returned only when byte %d of the buffer (counted from its end) was found to be %q: a bulk not followed by CR LF is malformed and must yield an error", t.off, rune(t.ch)))
 					}
 					if len(ret.Results) == 2 && pat.Expr("_b[:_n]").Match(info, flow.Resolve(info, fn.Decl.Body, ret.Results[0]), b) != nil {
 						c.Okf("R4.term", "decodeBulkBytes/payload", ret.Pos(), "the value is the buffer without its 2 terminator bytes (b[:n])")
@@ -260,11 +260,11 @@ func (r *rs) r4() {
 				return ok && !flow.ErrReturn(info, fn.Decl.Body, ret) && core.Mentions(info, ret, flow.Obj(info, b["_v"]))
 			}) {
 				n++
-				ok, w := flow.OnlyVia(g, p, func(f cfgq.Fact) bool {
-					isNil, ok := flow.NilCmp(info, f, flow.IsObj(info, eobj))
-					return ok && isNil
-				})
-				c.Check("R4.term", "decodeInt/error-returned", p.Node().Pos(), ok, "the parsed number may be returned only when ParseInt reported no error: a non-numeric length or integer must yield an error", w...)
+				nilOf := func(f cfgq.Fact) (bool, bool) { return flow.NilCmp(info, f, flow.IsObj(info, eobj)) }
+				r.guard("R4.term", "decodeInt/error-returned", p.Node().Pos(), g, p,
+					func(f cfgq.Fact) bool { isNil, ok := nilOf(f); return ok && isNil },
+					flow.Opaque(g, func(f cfgq.Fact) bool { _, ok := nilOf(f); return ok }, eobj),
+					"the parsed number may be returned only when ParseInt reported no error: a non-numeric length or integer must yield an error")
 			}
 			if n == 0 {
 				c.Undecidedf("R4.term", "decodeInt/error-returned", as.Pos(), "no return of the parsed value found")
@@ -281,6 +281,7 @@ func (r *rs) line(name string, returnsPrefix bool) {
 		return
 	}
 	g := cfgq.Of(c.Program, fn)
+	r.cur = fn.Decl.Body
 	as, b := pat.Stmt("_b, _err = _d.r.ReadBytes(_delim)").Find(info, fn.Decl.Body, nil)
 	if as == nil {
 		c.Undecidedf("R4.term", name+"/line", fn.Decl.Pos(), "cannot find `b, err := d.r.ReadBytes(delim)`")
@@ -291,14 +292,14 @@ func (r *rs) line(name string, returnsPrefix bool) {
 	} else {
 		c.Check("R4.term", name+"/delimiter", as.Pos(), d == '\n', fmt.Sprintf("a line ends at LF (found delimiter %q): any other delimiter leaves the terminator in the stream or swallows the next value", rune(d)))
 	}
-	nd, nb := pat.Stmt("_n = len(_b) - _k").Find(info, fn.Decl.Body, b)
-	if nd == nil || !isConst(info, nb["_k"].(ast.Expr), 2) {
-		c.Undecidedf("R4.term", name+"/crlf", as.Pos(), "cannot find `n := len(b) - 2`")
+	bobj := flow.Obj(info, b["_b"])
+	if bobj == nil {
+		c.Undecidedf("R4.term", name+"/crlf", as.Pos(), "the line is not bound to a variable")
 		return
 	}
-	nobj := flow.Obj(info, nb["_n"])
+	buf := r.bufferOf(fn.Decl.Body, bobj, nil)
+	opq := flow.Opaque(g, buf.understood, bobj)
 	ap, _ := flow.PointOf(g, as)
-	isCR := func(e ast.Expr) bool { return pat.Expr("_b[_n]").Match(info, e, nb) != nil }
 	k := 0
 	for _, p := range g.Points(func(m ast.Node) bool {
 		ret, ok := m.(*ast.ReturnStmt)
@@ -309,10 +310,10 @@ func (r *rs) line(name string, returnsPrefix bool) {
 			continue
 		}
 		k++
-		ok1, w1 := flow.OnlyVia(g, p, func(f cfgq.Fact) bool { return flow.CmpIs(info, f, flow.IsObj(info, nobj), token.GEQ, 0) })
-		c.Check("R4.term", name+"/min-length", ret.Pos(), ok1, "a value may be returned only when the line has at least 2 bytes (n >= 0): the 1-byte line \"\\n\" must yield an error, not an index panic", w1...)
-		ok2, w2 := flow.OnlyVia(g, p, func(f cfgq.Fact) bool { return flow.CmpIs(info, f, isCR, token.EQL, '\r') })
-		c.Check("R4.term", name+"/cr", ret.Pos(), ok2, "a value may be returned only when the byte before the LF is CR: a line without CR LF is malformed and must yield an error", w2...)
+		r.guard("R4.term", name+"/min-length", ret.Pos(), g, p, buf.atLeast(2), opq,
+			"a value may be returned only when the line has at least 2 bytes: the 1-byte line \"\\n\" must yield an error, not an index panic")
+		r.guard("R4.term", name+"/cr", ret.Pos(), g, p, buf.establishes(shift(buf.length, -2), '\r'), opq,
+			"a value may be returned only when the byte before the LF is CR: a line without CR LF is malformed and must yield an error")
 		if returnsPrefix {
 			rs, _ := ret.(*ast.ReturnStmt)
 			var val ast.Expr
@@ -324,10 +325,15 @@ func (r *rs) line(name string, returnsPrefix bool) {
 					}
 				}
 			}
-			if val != nil && pat.Expr("_b[:_n]").Match(info, val, nb) != nil {
-				c.Okf("R4.term", name+"/payload", ret.Pos(), "the text value is the line without its 2 terminator bytes (b[:n])")
+			// the value is b[:len(b)-2]
+			okVal := false
+			if se, isSlice := ast.Unparen(val).(*ast.SliceExpr); val != nil && isSlice && flow.IsObj(info, bobj)(se.X) && se.Max == nil && se.High != nil && (se.Low == nil || isConst(info, se.Low, 0)) {
+				okVal = lin.Of(info, se.High).Equal(shift(buf.length, -2))
+			}
+			if okVal {
+				c.Okf("R4.term", name+"/payload", ret.Pos(), "the text value is the line without its 2 terminator bytes (b[:len(b)-2])")
 			} else {
-				c.Undecidedf("R4.term", name+"/payload", ret.Pos(), "returned value %s is not the recognised b[:n]", c.Src(ret))
+				c.Undecidedf("R4.term", name+"/payload", ret.Pos(), "returned value %s is not the recognised b[:len(b)-2]", c.Src(ret))
 			}
 		}
 	}
@@ -354,6 +360,12 @@ func (r *rs) r5enc(name string) {
 			return ok && isNil == want
 		}
 	}
+	// a test of len(v) is understood: it cannot tell nil from empty, so it never establishes either fact
+	vlen := r.bufferOf(fn.Decl.Body, v, nil).length
+	opq := flow.Opaque(g, func(f cfgq.Fact) bool {
+		_, ok := flow.NilCmp(info, f, isV)
+		return ok || flow.LinAbout(info, f, vlen)
+	}, v)
 	minus, length := 0, 0
 	for _, call := range flow.FindCalls(fn.Decl.Body, func(call *ast.CallExpr) bool {
 		return core.CalleeFunc(info, call) == encodeInt.Obj && len(call.Args) == 1
@@ -366,12 +378,10 @@ func (r *rs) r5enc(name string) {
 		switch {
 		case isConst(info, arg, -1):
 			minus++
-			ok, w := flow.OnlyVia(g, p, nilFact(true))
-			c.Check("R5.nil", name+"/minus-one-iff-nil", call.Pos(), ok, "length -1 may be written only when the value == nil: a non-nil empty value must be written with length 0 or it decodes as nil", w...)
+			r.guard("R5.nil", name+"/minus-one-iff-nil", call.Pos(), g, p, nilFact(true), opq, "length -1 may be written only when the value == nil: a non-nil empty value must be written with length 0 or it decodes as nil")
 		case lenOf(info, fn.Decl.Body, arg) == v && v != nil:
 			length++
-			ok, w := flow.OnlyVia(g, p, nilFact(false))
-			c.Check("R5.nil", name+"/length-iff-non-nil", call.Pos(), ok, "len(value) may be written only when the value != nil: a nil value must be written as -1 or it decodes as empty", w...)
+			r.guard("R5.nil", name+"/length-iff-non-nil", call.Pos(), g, p, nilFact(false), opq, "len(value) may be written only when the value != nil: a nil value must be written as -1 or it decodes as empty")
 		default:
 			c.Undecidedf("R5.nil", name+"/length", call.Pos(), "length argument %s not recognised", c.Src(arg))
 		}
